@@ -24,7 +24,7 @@ pub fn families(property: &str, tier: &str) -> Vec<Family> {
     match property {
         "C01" => vec![Family { name: "hist", weight: 3, gen: crate::hist::generate }, Family { name: "routes", weight: 1, gen: crate::routes::generate }],
         "C02" => vec![Family { name: "hist", weight: 1, gen: crate::hist::generate }],
-        "C04" => vec![Family { name: "hist", weight: 3, gen: crate::hist::generate }, Family { name: "panics", weight: 1, gen: crate::panics::generate }],
+        "C04" => vec![Family { name: "hist", weight: 6, gen: crate::hist::generate }, Family { name: "panics", weight: 2, gen: crate::panics::generate }, Family { name: "wire", weight: 1, gen: crate::wire::generate }],
         "C03" => vec![Family { name: "hist", weight: 1, gen: crate::hist::generate }, Family { name: "tap", weight: 2, gen: crate::net::generate_tap }],
         "C05" => vec![Family { name: "hist", weight: 2, gen: crate::hist::generate }, Family { name: "store", weight: 1, gen: crate::net::generate_store }],
         "C07" => vec![Family { name: "hist", weight: 2, gen: crate::hist::generate }, Family { name: "replica", weight: 1, gen: crate::replica::generate }],
